@@ -48,6 +48,18 @@ fn plan_for(property: &str, tier: &str, seed: u64, workers: usize) -> Result<Pla
         time_cap_s: cap,
         digests: false,
     };
+    let asan = |config: &str, runs: u64| Batch {
+        property: property.to_string(),
+        config: config.to_string(),
+        // other runs than the UB-check build executes
+        seed: crate::prng::mix(&[seed, 0xa5a]),
+        runs,
+        workers,
+        launcher: Launcher::Asan,
+        time_cap_s: cap,
+        digests: false,
+    };
+    let asan_on = env_u64("VERIF_ASAN").unwrap_or(1) != 0;
     let miri_runs = env_u64("VERIF_MIRI_RUNS");
     match property {
         "C16" => Ok(Plan {
@@ -80,6 +92,9 @@ fn plan_for(property: &str, tier: &str, seed: u64, workers: usize) -> Result<Pla
         }),
         "C01" => {
             let mut batches = vec![native("native", runs(1_000_000, 100_000_000))];
+            if asan_on {
+                batches.push(asan("native", runs(1_000_000, 50_000_000)));
+            }
             let m = miri_runs.unwrap_or(if thorough { 5_200 } else { 208 });
             if m > 0 {
                 batches.push(miri("inspect", m, 16));
@@ -105,6 +120,10 @@ fn plan_for(property: &str, tier: &str, seed: u64, workers: usize) -> Result<Pla
                 native("bulk", runs(30_000, 500_000)),
                 native("buf", runs(100_000, 3_000_000)),
             ];
+            if asan_on {
+                batches.push(asan("faulty", runs(10_000, 600_000)));
+                batches.push(asan("buf", runs(30_000, 1_000_000)));
+            }
             let m = miri_runs.unwrap_or(if thorough { 96 } else { 0 });
             if m > 0 {
                 batches.push(miri("miri", m, 16));
@@ -259,9 +278,17 @@ pub fn run_main(property: &str, tier: &str) -> i32 {
             bt.elapsed().as_secs_f64()
         );
         configs.put(
-            &if b.launcher == Launcher::Miri { format!("miri/{}", b.config) } else { b.config.clone() },
+            &match b.launcher {
+                Launcher::Miri => format!("miri/{}", b.config),
+                Launcher::Asan => format!("asan/{}", b.config),
+                Launcher::Native => b.config.clone(),
+            },
             J::obj()
-                .set("launcher", J::s(if b.launcher == Launcher::Miri { "miri" } else { "native (release + debug-assertions + overflow-checks + unsafe-precondition checks)" }))
+                .set("launcher", J::s(match b.launcher {
+                    Launcher::Miri => "miri",
+                    Launcher::Asan => "native + AddressSanitizer (nightly, release + debug-assertions + overflow-checks)",
+                    Launcher::Native => "native (release + debug-assertions + overflow-checks + unsafe-precondition checks)",
+                }))
                 .set("runs_requested", J::u(b.runs))
                 .set("runs_done", J::u(r.runs_done))
                 .set("executions", J::u(r.stats.get("executions")))
